@@ -1483,7 +1483,7 @@ theorem Pub_dumpOne {cfg : Cfg} {st st' : NsState × List DumpEntry × Nat} {e :
       | ok ns' =>
         rw [ha] at hd; cases hd
         refine Pub_appendReplace h ?_ ha
-        apply PublicSym_of_kind <;> (unfold dumpNode; dsimp only; split <;> simp)
+        apply PublicSym_of_kind <;> (unfold dumpNode; split <;> (try dsimp only) <;> (try split) <;> simp)
 
 theorem Pub_pairBoxed {cfg : Cfg} {st st' : NsState × Nat} {e : DumpEntry} (h : st.1.Pub cfg)
     (hd : pairBoxed cfg st e = .ok st') : st'.1.Pub cfg := by
@@ -1610,5 +1610,12 @@ theorem Pub_describe {inp : Input} {st : NsState} (hd : describe inp = .ok st) :
 /-- which kinds get a static-function clone instead of a move -/
 def isCloneOwnerKind (k : Kind) : Bool :=
   k == .iface || k == .record || k == .union || k == .boxed || k == .enum
+
+theorem endsWith_append (b t : Str) : endsWith (b ++ t) t = true := by
+  simp [endsWith, List.reverse_append]
+
+theorem endsWith_gtype_not_type (b : Str) :
+    endsWith (b ++ "_get_gtype".toList) "_get_type".toList = false := by
+  simp [endsWith, List.reverse_append, List.isPrefixOf]
 
 end GIVerif.Naming
